@@ -114,7 +114,7 @@ static void emitOp(const std::vector<int> &o, World *w, bool processed, const ch
 
 static int opLen(int t)
 {
-    static const int n[] = {0, 5, 8, 3, 7, 6, 3, 5, 1, 1, 1, 3, 1, 0, 1, 5, 11};
+    static const int n[] = {0, 5, 8, 3, 7, 6, 3, 5, 1, 1, 1, 3, 1, 0, 1, 5, 11, 2};
     return n[t];
 }
 
@@ -152,6 +152,18 @@ static void runScenario(int mode, int opts, const std::vector<std::vector<int> >
             case 10: w.router->deleteJunction(w.juncs.at(o[1])); w.juncs.erase(o[1]); processed = !w.txn; break;
             case 11: w.router->moveJunction(w.juncs.at(o[1]), o[2], o[3]); processed = !w.txn; break;
             case 12: w.router->hyperedgeRerouter()->registerHyperedgeForRerouting(w.juncs.at(o[1])); break;
+            case 17: {      // 17 dx dy: every junction the router currently has (also those hyperedge rerouting created) is moved by (dx, dy)
+                std::vector<JunctionRef *> js;
+                // (not those the last rerouting/improvement reported as deleted: they stay in the router until the next transaction
+                //  removes them, and the client is told through the deleted-object lists not to use them any more)
+                std::set<JunctionRef *> gone;
+                { HyperedgeNewAndDeletedObjectLists L = w.router->newAndDeletedObjectListsFromHyperedgeImprovement();
+                  gone.insert(L.deletedJunctionList.begin(), L.deletedJunctionList.end());
+                  HyperedgeNewAndDeletedObjectLists R = w.router->hyperedgeRerouter()->newAndDeletedObjectLists(0);
+                  gone.insert(R.deletedJunctionList.begin(), R.deletedJunctionList.end()); }
+                for (Obstacle *ob : w.router->m_obstacles) if (JunctionRef *q = dynamic_cast<JunctionRef *>(ob)) if (!gone.count(q)) js.push_back(q);
+                for (JunctionRef *q : js) w.router->moveJunction(q, o[1], o[2]);
+                processed = !w.txn && !js.empty(); break; }
             case 16: { ConnEndList terms; for (int q = 0; q < o[1] && q < 5; q++) terms.push_back(ConnEnd(w.shapes.at(o[2 + 2 * q]), (unsigned)o[3 + 2 * q]));
                        w.router->hyperedgeRerouter()->registerHyperedgeForRerouting(terms); break; }
             case 13: w.router->processTransaction(); processed = true; break;
